@@ -51,8 +51,10 @@ def run(ctx):
     if not ctx.quick:
         args.append("-all")
     rc, js, err = ctx.harness(args, timeout=3300)
-    ctx.log("%d logs (%d commands, %d bytes): %d tear offsets, %d recoveries on real servers, %d mismatches" %
-            (js["logs"], js["commands"], js["bytes"], js["offsets"], js["recoveries"], len(js.get("mismatches") or [])))
+    ctx.log("%d logs (%d commands, %d bytes), %d of them also behind a prefix that puts a command across the loader's 64 KiB read "
+            "chunk: %d tear offsets, %d recoveries on real servers, %d mismatches" %
+            (js["logs"], js["commands"], js["bytes"], js.get("logs_across_chunk_boundary", 0), js["offsets"], js["recoveries"],
+             len(js.get("mismatches") or [])))
     lines = open(beh).read().split("\n")
     groups = {}
     for m in js.get("mismatches") or []:
@@ -67,6 +69,8 @@ def run(ctx):
         common.report(ctx, "c04-" + what, text, {"kind": "torn", "behaviour": lines[m["behaviour"]], "mismatch": m})
     if js["recoveries"] == 0:
         raise common.Infra("no recovery was exercised (vacuous)")
+    if not ctx.replay and js.get("logs_across_chunk_boundary", 0) == 0:
+        raise common.Infra("no log was torn across a read-chunk boundary of the loader (vacuous for the carry-over logic)")
     common.write_evidence(ctx, "fault_enumeration", {
         "evaluations": js["recoveries"], "distinct_nontrivial": js["offsets"],
         "rule": "one case = (log produced by the real server from a TLC behaviour, byte offset of the tear, NUL padding at command "
@@ -74,6 +78,7 @@ def run(ctx):
                 "file; quick samples every offset within 3 bytes of a command boundary plus a stride, thorough takes every offset",
         "samples": [lines[0][:1500]],
         "states": states, "transitions": trans, "logs": js["logs"], "log_bytes": js["bytes"],
+        "logs_torn_across_a_read_chunk_boundary": js.get("logs_across_chunk_boundary", 0),
         "exhaustive": not ctx.quick,
     }, [
         "expected states come from TLC (AOF.tla TornSpec), byte boundaries from the harness' own RESP encoder",
